@@ -9,6 +9,7 @@
 #include <stdio.h>
 #include <stdlib.h>
 #include <string.h>
+#include <sys/time.h>
 #include <unistd.h>
 #include "vt.h"
 
@@ -215,4 +216,22 @@ void vt_install_crash_handlers(void)
 {
     signal(SIGABRT, vt_crash);
     signal(SIGFPE, vt_crash);
+}
+
+void vt_watchdog_start(int cpu_seconds, void (*handler)(int))
+{
+    struct itimerval it;
+
+    signal(SIGPROF, handler);
+    memset(&it, 0, sizeof(it));
+    it.it_value.tv_sec = cpu_seconds;
+    (void)setitimer(ITIMER_PROF, &it, NULL);
+}
+
+void vt_watchdog_stop(void)
+{
+    struct itimerval it;
+
+    memset(&it, 0, sizeof(it));
+    (void)setitimer(ITIMER_PROF, &it, NULL);
 }
